@@ -335,6 +335,8 @@ IMPLICIT_EXC = ('KeyError', 'IndexError', 'AttributeError', 'TypeError')
 
 # --------------------------------------------------------------------------------------- executor
 OBJMAT_ENTRY = None          # set by the contracts: spec function mentry(psd, i, j)
+NP_ROWSCALE = None           # set by the numpy model (contracts/pepeval.py): v * M
+NP_COLUMN = None             # M[:, j] as a vector
 
 
 class DesugarComprehension(ast.NodeTransformer):
@@ -613,6 +615,10 @@ class Engine:
             arr, sc = (a, b) if a.ty.k == 'arr1i' else (b, a)
             kk = fresh('k', I)
             return V(TArr1i, z3.Lambda([kk], arr.t[kk] + sc.t), items=arr.items, py='fresh')      # numpy broadcasting of a python int (unbounded ints)
+        if isinstance(op, ast.Mult) and a.ty.k == 'arr1' and b.ty.k == 'arr2' and NP_ROWSCALE is not None:
+            # numpy broadcasting v * M (column j of M scaled by v[j]): an uninterpreted function of both (assumed external algebra)
+            self.emit('safe.broadcast@%d' % line, st, a.items[0] == b.items[1], line, tag='aux')
+            return V(TArr2, NP_ROWSCALE(a.t, b.t), items=b.items, py='fresh')
         if a.ty.k == 'arr2' or b.ty.k == 'arr2':
             ii, jj = fresh('i', I), fresh('j', I)
             if isinstance(op, ast.Add) and a.ty.k == 'arr2' and b.ty.k == 'arr2':
@@ -850,6 +856,16 @@ class Engine:
                 raise OutOfSubset('array index of type %r at line %d' % (idx.ty, e.lineno))
             i = self.np_index(st, base, idx.t, 0, e.lineno)
             return vreal(base.t[i]) if base.ty.k == 'arr1' else vint(base.t[i])
+        if base.ty.k == 'arr2' and isinstance(e.slice, ast.Tuple) and len(e.slice.elts) == 2 and isinstance(e.slice.elts[0], ast.Slice) \
+                and e.slice.elts[0].lower is None and e.slice.elts[0].upper is None and e.slice.elts[0].step is None and NP_COLUMN is not None:
+            # M[:, j]: column j as a vector
+            j = self.as_int(st, self.ev(e.slice.elts[1], st), e.lineno)
+            if j.ty.k != 'int':
+                raise OutOfSubset('column index of type %r at line %d' % (j.ty, e.lineno))
+            jj = self.np_index(st, base, j.t, 1, e.lineno)
+            col = NP_COLUMN(base.t, jj)
+            st.pc.append(vdim(col) == base.items[0])
+            return V(TVec, col, py='fresh')
         if base.ty.k == 'arr2':
             idx = self.ev(e.slice, st)
             if idx.ty.k == 'tuple':
